@@ -7,6 +7,7 @@
 /// the hash the caller's hasher computes for an element: a function of the element only (lawful Hash)
 pub uninterp spec fn elem_hash(id: int) -> u64;
 
+#[derive(Clone, Copy)]
 pub struct ElemPtr {
     pub idx: usize,
 }
@@ -53,18 +54,6 @@ impl RawTableInner {
             final(self).items == old(self).items,
     { unimplemented!() }
 
-    /// strong reachability: bucket i lies in probe window k of hash h and every earlier window is entirely FULL
-    pub open spec fn sreach_at(&self, i: int, h: u64, k: nat) -> bool {
-        let n = self.nb();
-        let start = h as usize as int;
-        &&& (n >= Group::WIDTH ==> (k as int) < n / (Group::WIDTH as int))
-        &&& (n < Group::WIDTH ==> k == 0)
-        &&& 0 <= (i - spec_pos(start, n, k)) % n < Group::WIDTH
-        &&& forall|j: nat, t: int| j < k && 0 <= t < Group::WIDTH ==> #[trigger] self.win(spec_pos(start, n, j), t) < 0x80u8
-    }
-    pub open spec fn sreach(&self, i: int, h: u64) -> bool {
-        exists|k: nat| #[trigger] self.sreach_at(i, h, k)
-    }
     /// bucket j holds a placed element: FULL, tagged with its element's hash, strongly reachable for it
     pub open spec fn placed(&self, j: int) -> bool {
         let h = elem_hash(self.elems@[j]);
@@ -81,4 +70,21 @@ pub open spec fn count_upto(p: spec_fn(int) -> bool, hi: int) -> nat
     decreases hi,
 {
     if hi <= 0 { 0 } else { count_upto(p, hi - 1) + (if p(hi - 1) { 1nat } else { 0nat }) }
+}
+
+impl RawTableInner {
+    /// buckets that hold an element (FULL, or marked DELETED while a rehash is in progress) with identity id
+    pub open spec fn live_with(&self, id: int) -> spec_fn(int) -> bool {
+        |j: int| self.ctrl@[j] != 0xFFu8 && self.elems@[j] == id
+    }
+    pub open spec fn full_with(&self, id: int) -> spec_fn(int) -> bool {
+        |j: int| self.ctrl@[j] < 0x80u8 && self.elems@[j] == id
+    }
+    pub open spec fn deleted_fn(&self) -> spec_fn(int) -> bool {
+        |j: int| self.ctrl@[j] == 0x80u8
+    }
+    /// every FULL bucket is tagged with its element's hash and strongly reachable for it
+    pub open spec fn all_placed(&self) -> bool {
+        forall|j: int| 0 <= j < self.nb() && #[trigger] self.ctrl@[j] < 0x80u8 ==> self.placed(j)
+    }
 }
